@@ -40,6 +40,10 @@ type Cfg struct {
 	Silent   int      `json:"silent"` // instance index that stops after its first upload (-1 none)
 	IntKey   bool     `json:"intkey"`
 	MaxSends int      `json:"max_sends"` // per instance (0 = unlimited)
+	NewestOnly bool   `json:"newest_only"` // merges only of the newest snapshot of another instance
+	OwnKeys  bool     `json:"own_keys"`    // instance i writes only Keys[i]
+	Prefix   []string `json:"prefix"`      // scripted events applied before the search starts
+	NoDelete bool     `json:"no_delete"`
 }
 
 const base = uint64(1_000_000_000_000_000_000) // logical epoch, far from 0/1 special values
@@ -61,8 +65,14 @@ type Fleet struct {
 	LastOp map[string]map[int]string
 	// Seen records every version observed anywhere after any event.
 	Seen map[string]map[world.Ver]bool
-	// LastEventErr is an error returned by the implementation in the last event.
 	Hist []string
+	// monitor of C05: join over the newest snapshot of every instance, must never move backwards
+	prevJ    map[string]world.Ver
+	MonViols []string
+	// harness-side shadow of the cleaners' first-seen bookkeeping, used only for state deduplication
+	firstSeen []map[string]uint64
+	// harness-side shadow of each syncer's lastByInstance map (last merged snapshot per source instance)
+	lastLoaded []map[string]string
 }
 
 // Install installs the harness clock and disables the explicit GC in the code under test.
@@ -80,6 +90,12 @@ func New(cfg Cfg) *Fleet {
 		f.NSends = append(f.NSends, 0)
 	}
 	f.Install()
+	for _, e := range cfg.Prefix {
+		if err := f.Apply(e); err != nil {
+			panic(fmt.Sprintf("scripted prefix event %s: %v", e, err))
+		}
+	}
+	f.Hist = nil
 	return f
 }
 
@@ -181,7 +197,10 @@ func (f *Fleet) Enabled() []string {
 		if f.Cfg.Silent == i && f.NSends[i] >= 1 {
 			continue
 		}
-		for _, dk := range f.Cfg.Keys {
+		for ki, dk := range f.Cfg.Keys {
+			if f.Cfg.OwnKeys && ki != i {
+				continue
+			}
 			for vi := range f.Cfg.Vals {
 				for _, m := range modes(i) {
 					evs = append(evs, fmt.Sprintf("P%d:%s:%d%s", i, dk, vi, m))
@@ -194,7 +213,7 @@ func (f *Fleet) Enabled() []string {
 			}
 			// delete only what exists locally (shadow: key in app DBI; native: entry live)
 			d, k := splitKey(dk)
-			if _, ok := f.App(i)[d][string(k)]; ok {
+			if _, ok := f.App(i)[d][string(k)]; ok && !f.Cfg.NoDelete {
 				for _, m := range modes(i) {
 					evs = append(evs, fmt.Sprintf("D%d:%s%s", i, dk, m))
 				}
@@ -221,8 +240,31 @@ func (f *Fleet) Enabled() []string {
 			continue
 		}
 		for bi := range blobs {
+			if f.Cfg.NewestOnly {
+				isNewest := false
+				for j := range f.I {
+					if j != i && f.Newest(j) == blobs[bi] {
+						isNewest = true
+					}
+				}
+				if !isNewest {
+					continue
+				}
+			}
 			evs = append(evs, fmt.Sprintf("L%d:%d", i, bi))
 		}
+	}
+	if f.Cfg.Cleaner {
+		for i := 0; i < f.Cfg.N; i++ {
+			if f.Cfg.Silent == i && f.NSends[i] >= 1 {
+				continue
+			}
+			evs = append(evs, fmt.Sprintf("C%d", i))
+			if f.Cfg.Restart {
+				evs = append(evs, fmt.Sprintf("R%d", i))
+			}
+		}
+		evs = append(evs, "Tkeep", "Tstale")
 	}
 	return evs
 }
@@ -323,12 +365,26 @@ func (f *Fleet) Apply(ev string) error {
 		if err != nil {
 			return ImplError{ev, err}
 		}
+		for len(f.lastLoaded) < len(f.I) {
+			f.lastLoaded = append(f.lastLoaded, map[string]string{})
+		}
+		if ni, perr := snapshot.ParseName(blobs[bi]); perr == nil {
+			f.lastLoaded[i][ni.InstanceID] = blobs[bi]
+		}
 		if !changed {
 			f.LastSynced[i] = id
 		}
 	case 'C': // cleaner run on instance i
 		i, _ := strconv.Atoi(rest)
 		f.Clock += step
+		for len(f.firstSeen) < len(f.I) {
+			f.firstSeen = append(f.firstSeen, map[string]uint64{})
+		}
+		for _, n := range f.B.Names() {
+			if _, ok := f.firstSeen[i][n]; !ok {
+				f.firstSeen[i][n] = f.Clock
+			}
+		}
 		if err := f.I[i].S.VerifCleaner().RunOnce(context.Background(), time.Unix(0, int64(f.Clock))); err != nil {
 			return ImplError{ev, err}
 		}
@@ -347,11 +403,51 @@ func (f *Fleet) Apply(ev string) error {
 		env := f.I[i].Env
 		f.I[i] = f.newInst(i, env)
 		f.LastSynced[i] = 0
+		if i < len(f.firstSeen) {
+			f.firstSeen[i] = map[string]uint64{}
+		}
+		if i < len(f.lastLoaded) {
+			f.lastLoaded[i] = map[string]string{}
+		}
 	default:
 		return fmt.Errorf("unknown event %q", ev)
 	}
 	f.observe()
+	f.monitor(ev)
 	return nil
+}
+
+// monitor recomputes the join over the newest snapshot of every instance and
+// checks that no key moved backwards or vanished (C05).
+func (f *Fleet) monitor(ev string) {
+	j := map[string]world.Ver{}
+	for i := range f.I {
+		n := f.Newest(i)
+		if n == "" {
+			continue
+		}
+		data, _ := f.B.Get(n)
+		lc, _, err := SnapLC(data)
+		if err != nil {
+			continue
+		}
+		for d, m := range lc {
+			for k, v := range m {
+				if cur, ok := j[d+"/"+k]; !ok || v.TS > cur.TS {
+					j[d+"/"+k] = v
+				}
+			}
+		}
+	}
+	for k, old := range f.prevJ {
+		now, ok := j[k]
+		if !ok {
+			f.MonViols = append(f.MonViols, fmt.Sprintf("after %s the newest snapshots of all instances no longer contain key %s (was %v); bucket: %v", ev, k, old, f.B.Names()))
+		} else if now.TS < old.TS {
+			f.MonViols = append(f.MonViols, fmt.Sprintf("after %s key %s went back from %v to %v in the join of the newest snapshots", ev, k, old, now))
+		}
+	}
+	f.prevJ = j
 }
 
 // SnapLC decodes a snapshot blob to logical content.
@@ -486,11 +582,22 @@ func (f *Fleet) cleanerState(i int) string {
 			parts = append(parts, fmt.Sprintf("%s:%d", f.I[j].Name, t.UnixNano()-int64(base)))
 		}
 	}
-	// first-seen times are not exported; approximate by the events that ran the cleaner
 	var runs []string
-	for hi, e := range f.Hist {
-		if e == fmt.Sprintf("C%d", i) || e == fmt.Sprintf("R%d", i) || e[0] == 'T' {
-			runs = append(runs, fmt.Sprintf("%d%s", hi, e))
+	if i < len(f.lastLoaded) {
+		names := f.B.Names()
+		var ll []string
+		for src, n := range f.lastLoaded[i] {
+			ll = append(ll, fmt.Sprintf("%s=%d", src, sort.SearchStrings(names, n)))
+		}
+		sort.Strings(ll)
+		runs = append(runs, "loaded:"+strings.Join(ll, ","))
+	}
+	if i < len(f.firstSeen) {
+		names := f.B.Names()
+		for bi, n := range names {
+			if t, ok := f.firstSeen[i][n]; ok {
+				runs = append(runs, fmt.Sprintf("%d:%d", bi, (f.Clock-t)/step))
+			}
 		}
 	}
 	return strings.Join(parts, ",") + "/" + strings.Join(runs, ",")
